@@ -60,13 +60,23 @@ def run(ctx):
     fn = h.fn(FN)
     n = 0
     for gname, (order, de, ue, outside) in GRAPHS.items():
-        for use_rfunc, use_sort in itertools.product((False, True, "same-label", "str-only-class"), (False, True, "cached-twice")):
+        for use_rfunc, use_sort in itertools.product((False, True, "same-label", "str-only-class", "equal-vertices"), (False, True, "cached-twice")):
             h.reset()
             vcls = "Vertex"
             label_rfunc = use_rfunc
             if use_rfunc == "str-only-class":
                 vcls, use_rfunc = "StrVert", False   # repr() is specified, not str()
-            V = {v: h.new(vcls, v) for v in list(order) + list(outside)}
+            if use_rfunc == "equal-vertices":
+                # a user vertex class with value equality: an outside vertex compares equal to a member (x == a) but is rendered differently
+                if not outside:
+                    continue
+                use_rfunc = True
+                V = {}
+                for i_, v in enumerate(list(order) + list(outside)):
+                    V[v] = h.I.call(h.sym["EqVert"], [0 if v in ("a", "x") else i_ + 1], {})
+                    V[v].name = v
+            else:
+                V = {v: h.new(vcls, v) for v in list(order) + list(outside)}
             for p, q in de:
                 h.new("DirectedEdge", f"d_{p}{q}", V[p], V[q])
             for p, q in ue:
@@ -152,7 +162,7 @@ def run(ctx):
             zero = any(not forward(order, de, ue, v) for v in order)
             res.ob(why is None, sig=(gname, label_rfunc, use_sort), sample={"graph": gname, "rfunc": use_rfunc, "sort": use_sort, "derived": repr(out.value) if out.kind == "return" else repr(out)})
             if why:
-                res.violation("LINE", FN, f"rfunc={use_rfunc},sort={use_sort},zero-neighbour-vertex={zero and 'line for' in why and not forward(order, de, ue, why.split()[2].rstrip(':'))}",
+                res.violation("LINE", FN, f"rfunc={label_rfunc},sort={use_sort},zero-neighbour-vertex={zero and 'line for' in why and not forward(order, de, ue, why.split()[2].rstrip(':'))}",
                               f"graph {gname} (universe order {order}, directed {de}, undirected {ue}): {why}", replay=replay(gname, use_rfunc, use_sort))
     res.rule("LINE", n)
     from rules import hist
